@@ -1,10 +1,15 @@
 """C02 - mass, volume and number densities are accounted consistently at every level.
 
 Workload: generated blocks (all extruded shapes, multiplicities, library materials), assemblies and
-third-/full-core reactors built from generated blueprints (symmetry factors 1 and 3), driven through
-random composition-edit histories interleaved with temperature and height changes.
+third-/full-core reactors built from generated blueprints (symmetry factors 1, 2 and 3: edge assemblies are
+added to and removed from third cores by EdgeAssemblyChanger in mid-history), driven through random
+composition-edit histories interleaved with temperature and height changes.
 Monitors: after every edit an *additivity ledger* recomputes, from public getters of the leaves only,
 what each parent must report (mass, volume, N*V), and a *read-back oracle* checks the law of the edit.
+The symmetry factor used by the ledger is never armi's: it is derived from the generator's own map of the core
+(hex: 3 for cell (0,0) of a third-periodic map, 2 for both members of a 0/120-degree edge pair, else 1; cartesian quarter
+map through the centre assembly: 4 for cell (0,0), 2 along row 0 and column 0, else 1; full maps: 1), and the volume of every
+block, assembly and core is also compared with cell area(pitch) x height / factor of the spec.
 """
 import math
 import random
@@ -12,15 +17,31 @@ import random
 PROP = "C02"
 LEVEL = "exploration"
 RULE = (
-    "blocks from vlib.gen (pin-type and arbitrary-shape blocks), assemblies of them, generated hex cores (third periodic / full); each "
+    "blocks from vlib.gen (pin-type and arbitrary-shape blocks), assemblies of them, generated hex cores (third periodic / full) and cartesian cores "
+    "of square pin blocks (quarter reflective through the centre assembly / full); each "
     "driven through 10-30 edits drawn from {setNumberDensity(ies), updateNumberDensities, changeNDensByFactor, setMass, addMass, removeMass, "
-    "setMassFrac(s), adjustMassFrac, clearNumberDensities, Component.setTemperature, Block.setHeight} at component/block/assembly/core level. "
+    "addMasses, setMasses, setMassFrac(s), adjustMassFrac, clearNumberDensities, Component.setTemperature, Block.setHeight} at component/block/"
+    "assembly/core level; about one edit in seven names a nuclide that no leaf of the object holds (composite-level update/setNumberDensities must "
+    "spread it over all children, composite-level setNumberDensity/setMass/addMass may refuse, component-level setters must accept). Third cores "
+    "with >=3 rings get EdgeAssemblyChanger.addEdgeAssemblies (and removeEdgeAssemblies) in mid-history; centre (hex factor 3, cartesian 4) and edge "
+    "(factor 2) blocks and their components are edited directly every step. Expected symmetry factors and volumes come from the generator's map. "
     "A case = one edit on one object followed by the ledger; distinct = (level, operation, nuclide class, block layout signature); non-trivial = "
     "the object has >=2 children holding different materials."
 )
-TOLERANCES = {"additivity_rel": 1e-10, "readback_rel": 1e-10, "unchanged_rel": 1e-12, "massfrac_sum_abs": 1e-10, "inverse_rel": 1e-12}
-FLOORS = {"quick": {"ledger.block": 3000, "ledger.assembly": 300, "ledger.core": 40, "edit.block-symmetry-factor-3": 20, "readback": 2000, "others-unchanged": 1000, "massfrac": 300, "densityTools": 500, "selection": 1000},
-          "thorough": {"ledger.block": 60000, "ledger.assembly": 6000, "ledger.core": 800, "edit.block-symmetry-factor-3": 400, "readback": 40000, "others-unchanged": 20000, "massfrac": 6000, "densityTools": 10000, "selection": 20000}}
+TOLERANCES = {"additivity_rel": 1e-10, "readback_rel": 1e-10, "unchanged_rel": 1e-12, "massfrac_sum_abs": 1e-10, "inverse_rel": 1e-12, "spec_volume_rel": 1e-9,
+              "trace_abs": 1e-40}
+FLOORS = {"quick": {"ledger.block": 3000, "ledger.assembly": 300, "ledger.core": 40, "ledger.component": 2500, "edit.block-symmetry-factor-3": 18,
+                    "edit.block-symmetry-factor-2": 12, "ledger.component-in-block-of-factor-3": 18, "ledger.component-in-block-of-factor-2": 12,
+                    "edit.cartesian-block-symmetry-factor-4": 6, "edit.cartesian-block-symmetry-factor-2": 6, "symmetry-factor.3": 45, "symmetry-factor.2": 50,
+                    "symmetry-factor.cartesian-4": 12, "symmetry-factor.cartesian-2": 12, "volume-from-spec": 900, "edge-assemblies.changed": 3,
+                    "readback": 2000, "readback.mass-vector": 250, "others-unchanged": 1000, "absent-nuclide.composite": 120, "absent-nuclide.component": 70,
+                    "massfrac": 300, "getMasses": 6000, "getMassFrac": 3000, "densityTools": 300, "selection": 1000},
+          "thorough": {"ledger.block": 60000, "ledger.assembly": 6000, "ledger.core": 800, "ledger.component": 30000, "edit.block-symmetry-factor-3": 350,
+                       "edit.block-symmetry-factor-2": 60, "ledger.component-in-block-of-factor-3": 350, "ledger.component-in-block-of-factor-2": 60,
+                       "edit.cartesian-block-symmetry-factor-4": 60, "edit.cartesian-block-symmetry-factor-2": 60, "symmetry-factor.3": 800, "symmetry-factor.2": 250,
+                       "symmetry-factor.cartesian-4": 120, "symmetry-factor.cartesian-2": 120, "volume-from-spec": 10000, "edge-assemblies.changed": 15,
+                       "readback": 35000, "readback.mass-vector": 3500, "others-unchanged": 18000, "absent-nuclide.composite": 1800, "absent-nuclide.component": 900,
+                       "massfrac": 6000, "getMasses": 90000, "getMassFrac": 50000, "densityTools": 10000, "selection": 20000}}
 AVOGADRO_FACTOR = None  # taken from armi.utils.units at run time (a constant of nature, not code under test)
 
 
@@ -29,6 +50,7 @@ def plan(tier, seed):
     out = [{"name": "blk%d" % i, "kind": "blocks", "n": 25 if q else 400, "edits": 25} for i in range(8)]
     out += [{"name": "asm%d" % i, "kind": "assemblies", "n": 6 if q else 120, "edits": 20} for i in range(4)]
     out += [{"name": "core%d" % i, "kind": "cores", "n": 2 if q else 30, "edits": 12} for i in range(3)]
+    out += [{"name": "cart0", "kind": "cores", "geom": "cartesian", "n": 3 if q else 30, "edits": 12}]
     out += [{"name": "dtools", "kind": "densitytools", "n": 600 if q else 20000}]
     return out
 
@@ -49,16 +71,114 @@ def const():
     return units.MOLES_PER_CC_TO_ATOMS_PER_BARN_CM
 
 
+# ----------------------------------------------------------------------------- expected symmetry factors (generator's spec, never armi's)
+EXPECT = {}  # id(block) -> (block, factor) for the blocks of the core under test; any other block is in no core: factor 1
+# nuclides that no library material of vlib.gen holds (an edit that names one of them exercises the "held by no child" branches)
+ABSENT_POOL = ["CS137", "SM149", "AM241", "TC99", "I129", "RH103", "GD155", "XE135", "EU153", "ND143", "PU240", "CM244", "PM147", "KR85", "SR90", "RU106",
+               "AG109", "CD113", "IN115", "SN126", "SB125", "TE130", "BA138", "LA139", "CE140", "PR141"]
+
+
+def xfac(block):
+    """Symmetry factor the generator's spec implies for this block (1 for a block outside the registered core)."""
+    e = EXPECT.get(id(block))
+    return e[1] if e is not None and e[0] is block else 1.0
+
+
+def hexarea(p):
+    return math.sqrt(3.0) / 2.0 * p * p
+
+
+def on_zero_line(i, j):
+    """The centre of cell (i, j), (x, y) = (sqrt(3)/2 i, i/2 + j), lies on the ray of polar angle 0 (not the centre cell)."""
+    return i > 0 and i + 2 * j == 0
+
+
+def rot120(i, j):
+    """Cell whose centre is the centre of (i, j) turned by +120 degrees: x' = -x/2 - sqrt(3)/2 y, y' = sqrt(3)/2 x - y/2."""
+    return (-i - j, i)
+
+
+def rot240(i, j):
+    return (j, -i - j)
+
+
+def spec_factor(cell, cells, cutkind):
+    """Hex third-periodic map: 3 for the centre; 2 for both members of an edge pair (a cell on the 0-degree line and its
+    image on the 120-degree line both hold an assembly); else 1.
+    Cartesian quarter map through the centre assembly (cell (0,0) is centred on the origin, the symmetry planes are x=0 and y=0):
+    4 for the centre, 2 for the other cells of row 0 and column 0; else 1.  Full maps: 1."""
+    if cutkind == "cartesian-quarter-through-centre":
+        i, j = cell
+        return 4.0 if (i, j) == (0, 0) else (2.0 if i == 0 or j == 0 else 1.0)
+    if cutkind != "hex-third-periodic":
+        return 1.0
+    if tuple(cell) == (0, 0):
+        return 3.0
+    if on_zero_line(*cell) and rot120(*cell) in cells:
+        return 2.0
+    if on_zero_line(*rot240(*cell)) and rot240(*cell) in cells:
+        return 2.0
+    return 1.0
+
+
+def register_core(rec, core, cells, cutkind, w):
+    """cell -> (assembly, expected factor) by looking every cell of the spec up in the core; registers the blocks' factors."""
+    EXPECT.clear()
+    amap = {}
+    for cell in sorted(cells):
+        a = core.childrenByLocator.get(core.spatialGrid[cell[0], cell[1], 0])
+        if a is None:
+            rec.violation("core/no-assembly-at-specified-cell", "no assembly at cell %r of the map" % (cell,), dict(w, cell=list(cell)))
+            continue
+        f = spec_factor(cell, cells, cutkind)
+        amap[cell] = (a, f)
+        for b in a:
+            EXPECT[id(b)] = (b, f)
+    if len(core) != len(amap):
+        rec.violation("core/assembly-count-differs-from-map", "core holds %d assemblies, the map %d cells" % (len(core), len(amap)), w)
+    return amap
+
+
+def check_core_geometry(rec, core, amap, A, heights, w, tag=""):
+    """Symmetry factor of every block/assembly vs the map, and volumes vs cell area (hexagon or square of the pitch) x height / factor."""
+    tol = TOLERANCES["spec_volume_rel"]
+    tot = 0.0
+    try:
+        for cell, (a, f) in sorted(amap.items()):
+            wc = dict(w, cell=list(cell), expectedFactor=f)
+            for k, b in enumerate(a):
+                rec.hit("symmetry-factor.%s%g" % (tag, f))
+                got = b.getSymmetryFactor()
+                if got != f:
+                    rec.violation("symmetry-factor/%sblock/expected-%g" % (tag, f), "block %d of the assembly at %r reports symmetry factor %r, the map implies %r" % (k, cell, got, f), wc)
+                    break
+                rec.hit("volume-from-spec")
+                if k < len(heights) and not rc(b.getVolume(), A * heights[k] / f, tol):
+                    rec.violation("volume/%sblock-vs-spec/factor-%g" % (tag, f), "block volume %r, cell area x height / factor = %r" % (b.getVolume(), A * heights[k] / f), wc)
+                    break
+            if a.getSymmetryFactor() != f:
+                rec.violation("symmetry-factor/%sassembly/expected-%g" % (tag, f), "assembly at %r reports %r, the map implies %r" % (cell, a.getSymmetryFactor(), f), wc)
+            ev = A * sum(heights) / f
+            tot += ev
+            if not rc(a.getVolume(), ev, tol):
+                rec.violation("volume/%sassembly-vs-spec/factor-%g" % (tag, f), "assembly volume %r, cell area x total height / factor = %r" % (a.getVolume(), ev), wc)
+        rec.hit("volume-from-spec")
+        if not rc(core.getVolume(), tot, tol):
+            rec.violation("volume/%score-vs-spec" % tag, "core volume %r, sum over the map of cell area x height / factor = %r" % (core.getVolume(), tot), w)
+    except Exception as e:
+        rec.crash("core-geometry", e, w)
+
+
 # ----------------------------------------------------------------------------- ledger (reference from leaves)
 def leaves(obj):
-    """(component, symmetry factor of its block) for every leaf component, by naive walk of child lists."""
+    """(component, expected symmetry factor of its block) for every leaf component, by naive walk of child lists."""
     from armi.reactor.components import Component
 
     out = []
 
     def walk(o):
         if isinstance(o, Component):
-            s = o.parent.getSymmetryFactor() if o.parent is not None else 1.0
+            s = xfac(o.parent) if o.parent is not None else 1.0
             out.append((o, s))
         else:
             for c in list(o):
@@ -87,13 +207,18 @@ def check_ledger(rec, obj, level, w, selections=None, rng=None):
     tolr = TOLERANCES["additivity_rel"]
     try:
         vol, atoms = ledger_of(obj)
-        V = obj.getVolume()
+        iscomp = isinstance(obj, Component)
+        # a component reports its whole volume and the mass of its share inside the model (volume / factor of its block):
+        # scomp is that factor as the map implies it; V is the volume that number densities are weighted with
+        scomp = (xfac(obj.parent) if obj.parent is not None else 1.0) if iscomp else 1.0
+        Vfull = obj.getVolume()
+        V = Vfull / scomp
         if not rc(V, vol, tolr):
             rec.violation("additivity/volume/%s" % level, "%s.getVolume()=%r, sum of leaf volumes / symmetry factor = %r" % (level, V, vol), w)
         kids = list(obj)
-        if kids and not isinstance(obj, Component):
+        if kids and not iscomp:
             sv = sum(k.getVolume() for k in kids)
-            sfac = obj.getSymmetryFactor() if level == "block" else 1.0
+            sfac = xfac(obj) if level == "block" else 1.0
             if not rc(V, sv / sfac, tolr):
                 rec.violation("additivity/volume-children/%s" % level, "%s volume %r vs sum(children)/symmetry %r" % (level, V, sv / sfac), w)
         # number density = volume weighted mean: N*V == sum of leaf N*V
@@ -111,8 +236,9 @@ def check_ledger(rec, obj, level, w, selections=None, rng=None):
             one = nucs[len(nucs) // 2]
             if not rc(obj.getNumberDensity(one), nd[nucs.index(one)], 1e-13, 1e-300):
                 rec.violation("getter-disagreement/getNumberDensity/%s" % level, "getNumberDensity(%s) differs from getNuclideNumberDensities" % one, w)
-            if not rc(obj.getNumberOfAtoms(one), nd[nucs.index(one)] * V * 1e24, 1e-12, 1e-30):
-                rec.violation("atoms/getNumberOfAtoms/%s" % level, "getNumberOfAtoms(%s)=%r, N*V/cm2-per-barn=%r" % (one, obj.getNumberOfAtoms(one), nd[nucs.index(one)] * V * 1e24), w)
+            # getNumberOfAtoms is documented as density x getVolume(): for a component that is its whole volume
+            if not rc(obj.getNumberOfAtoms(one), nd[nucs.index(one)] * Vfull * 1e24, 1e-12, 1e-30):
+                rec.violation("atoms/getNumberOfAtoms/%s" % level, "getNumberOfAtoms(%s)=%r, N*V/cm2-per-barn=%r" % (one, obj.getNumberOfAtoms(one), nd[nucs.index(one)] * Vfull * 1e24), w)
         # mass: total and per nuclide = sum over leaves of N*V*A/const ; and = sum of children's
         K = const()
         mref = {nuc: a * aw(nuc) / K for nuc, a in atoms.items()}
@@ -120,19 +246,45 @@ def check_ledger(rec, obj, level, w, selections=None, rng=None):
         M = obj.getMass()
         if not rc(M, mtot, tolr, 1e-30):
             rec.violation("additivity/mass-total/%s" % level, "%s.getMass()=%r, leaves hold %r" % (level, M, mtot), w)
-        if kids and not isinstance(obj, Component):
+        if kids and not iscomp:
             sm = sum(k.getMass() for k in kids)
             if not rc(M, sm, tolr, 1e-30):
                 rec.violation("additivity/mass-children/%s" % level, "%s mass %r vs sum(children) %r" % (level, M, sm), w)
+        # the vector of masses agrees, nuclide by nuclide, with what the leaves hold (and so with getMass)
+        if nucs:
+            rec.hit("getMasses")
+            gm = obj.getMasses()
+            for nuc in nucs:
+                if not rc(gm.get(nuc, 0.0), mref[nuc], tolr, 1e-30):
+                    if iscomp and scomp != 1.0:
+                        # Component inherits Composite.getMasses, which converts with the whole component volume, while
+                        # Component.getMass (and setMass/addMass) use the share inside the model: volume / factor of the block
+                        key = "getMasses-vs-getMass/component-in-symmetry-cut-block"
+                    else:
+                        key = "getMasses/%s" % level
+                    rec.violation(key, "%s.getMasses()[%s]=%r, leaves hold %r (getMass(%s)=%r)" % (level, nuc, gm.get(nuc), mref[nuc], nuc, obj.getMass(nuc)), dict(w, nuclide=nuc))
+                    break
+            if set(k for k, v in gm.items() if v) - set(nucs):
+                rec.violation("getMasses/extra-nuclides/%s" % level, "getMasses() names nuclides no leaf holds: %r" % sorted(set(gm) - set(nucs))[:5], w)
         # mass = density x volume
-        if not isinstance(obj, Component):
+        if not iscomp:
             rho = obj.density()
             if not rc(rho * V, M, tolr, 1e-30):
                 rec.violation("mass-vs-density-volume/%s" % level, "density %r x volume %r = %r, getMass %r" % (rho, V, rho * V, M), w)
+        elif mtot == 0.0 and nucs:
+            # a component whose densities are all zero: Component.density() documents that it then reports its material's
+            # density, so density x volume is not compared with the (zero) mass - but the call has to succeed
+            rec.skip("mass = density x volume on a component whose number densities are all zero (density() defers to the material)")
+            try:
+                obj.density()
+            except AttributeError as e:
+                from armi.materials import material as matmod_
+
+                kind_ = "fluid" if isinstance(obj.material, matmod_.Fluid) else "solid"
+                rec.violation("crash/Component.density/zero-composition-%s-component" % kind_, "density() of a %s component (%s) with all number densities zero raised AttributeError: %s" % (kind_, type(obj.material).__name__, e), w)
         else:
-            s = obj.parent.getSymmetryFactor() if obj.parent is not None else 1.0
-            if not rc(obj.density() * V / s, M, tolr, 1e-30):
-                rec.violation("mass-vs-density-volume/component", "component density x volume / symmetry %r vs getMass %r" % (obj.density() * V / s, M), w)
+            if not rc(obj.density() * V, M, tolr, 1e-30):
+                rec.violation("mass-vs-density-volume/component", "component density x volume / symmetry %r vs getMass %r" % (obj.density() * V, M), w)
         # masses of selections: nuclide, element, list, absent.  A name is resolved per object by the documented rule
         # (the name itself where that object holds it, else every isotope of the element of that symbol), so the
         # reference applies the rule leaf by leaf; parent == sum(children) is judged for every kind of selection.
@@ -169,19 +321,19 @@ def check_ledger(rec, obj, level, w, selections=None, rng=None):
                 elif kind == "list":
                     sel = rng.sample(nucs, min(len(nucs), rng.randint(1, 3)))
                 elif kind == "absent":
-                    sel = rng.choice([x for x in ("PU239", "XE135", "AU197") if x not in present] or ["PU239"])
+                    sel = rng.choice([x for x in ("PU239", "XE135", "AU197", "NP237") if x not in present] or ["PU239"])
                 else:
                     sel = None
                 exp = leafmass(sel)
                 got = obj.getMass(sel)
                 if not rc(got, exp, tolr, 1e-30):
                     rec.violation("mass-of-selection/%s/%s" % (kind, level), "%s.getMass(%r)=%r, leaves hold %r" % (level, sel, got, exp), dict(w, selection=sel))
-                if kids and not isinstance(obj, Component):
+                if kids and not iscomp:
                     sm = sum(k.getMass(sel) for k in kids)
                     if not rc(got, sm, tolr, 1e-30):
                         rec.violation("additivity/mass-selection-children/%s/%s" % (kind, level), "getMass(%r)=%r vs sum(children)=%r" % (sel, got, sm), dict(w, selection=sel))
         # mass fractions sum to one
-        if mtot > 0 and not isinstance(obj, Component):
+        if mtot > 0 and not iscomp:
             mf = obj.getMassFracs()
             tot = sum(mf.values())
             rec.hit("massfrac")
@@ -191,6 +343,24 @@ def check_ledger(rec, obj, level, w, selections=None, rng=None):
                 if not rc(mf.get(nuc, 0.0), mref[nuc] / mtot, 1e-9, 1e-15):
                     rec.violation("massfrac-vs-masses/%s" % level, "massFrac(%s)=%r, mass ratio %r" % (nuc, mf.get(nuc), mref[nuc] / mtot), w)
                     break
+            # getMassFrac of one name: a name the object holds is itself; an element symbol it does not hold as such is
+            # the sum over the isotopes of that element (documented specifier rule, applied at this object's level)
+            from armi.nucDirectory import nuclideBases as nb_
+
+            rec.hit("getMassFrac")
+            one = nucs[(len(nucs) * 2) // 3]
+            if not rc(obj.getMassFrac(one), mref[one] / mtot, 1e-9, 1e-15):
+                rec.violation("getMassFrac/nuclide/%s" % level, "getMassFrac(%s)=%r, mass ratio %r" % (one, obj.getMassFrac(one), mref[one] / mtot), dict(w, nuclide=one))
+            b0 = nb_.byName[one]
+            if getattr(b0, "element", None) is not None and 0 < b0.z <= 118:
+                sym = b0.element.symbol
+                if sym in mref:
+                    exp = mref[sym] / mtot
+                else:
+                    iso = {n_.name for n_ in b0.element.nuclides if not isinstance(n_, nb_.NaturalNuclideBase)}
+                    exp = sum(m_ for n_, m_ in mref.items() if n_ in iso) / mtot
+                if not rc(obj.getMassFrac(sym), exp, 1e-9, 1e-15):
+                    rec.violation("getMassFrac/element/%s" % level, "getMassFrac(%s)=%r, mass ratio of its isotopes %r" % (sym, obj.getMassFrac(sym), exp), dict(w, element=sym))
     except Exception as e:
         rec.crash("ledger/" + level, e, w)
 
@@ -225,10 +395,12 @@ def do_edit(rec, rng, obj, level, w):
     present = [n for n, v in before.items() if v > 0]
     if not present:
         return "empty"
+    if rng.random() < .14:
+        return absent_edit(rec, rng, obj, level, w, before)
     op = rng.choice(["setNumberDensity", "setNumberDensity", "updateNumberDensities", "setNumberDensities", "changeNDensByFactor", "setMass", "addMass",
-                     "removeMass", "setMassFrac", "setMassFracs", "adjustMassFrac", "clearNumberDensities"])
+                     "removeMass", "setMassFrac", "setMassFracs", "adjustMassFrac", "clearNumberDensities", "addMasses", "setMasses"])
     nuc = rng.choice(present)
-    if op in ("setMass", "addMass", "removeMass", "setMassFrac", "setMassFracs", "adjustMassFrac"):
+    if op in ("setMass", "addMass", "removeMass", "setMassFrac", "setMassFracs", "adjustMassFrac", "addMasses", "setMasses"):
         amb = ambiguous_names(before)
         clean = [n for n in present if n not in amb]
         if not clean:
@@ -309,15 +481,13 @@ def do_edit(rec, rng, obj, level, w):
             got = obj.getMass(nuc)
             if not rc(got, exp, 1e-9, 1e-30):
                 cut = ""
-                if isinstance(obj, Component) and obj.parent is not None and obj.parent.getSymmetryFactor() != 1.0:
+                if isinstance(obj, Component) and obj.parent is not None and xfac(obj.parent) != 1.0:
                     # component-level mass setters convert with the full component volume while Component.getMass reports the
                     # share inside the model (volume / symmetry factor of the block)
                     cut = "-in-symmetry-cut-block"
                 rec.violation("readback/%s/%s%s" % (op, level, cut), "%s(%s,%r): mass %r -> %r, expected %r" % (op, nuc, m, m0, got, exp), w)
             others_unchanged({nuc}, after)
         elif op in ("setMassFrac", "setMassFracs"):
-            if isinstance(obj, Component) and False:
-                return op
             rho0 = obj.density()
             mf0 = obj.getMassFracs()
             sel = [nuc] if op == "setMassFrac" else rng.sample(present_clean, min(len(present_clean), rng.randint(1, 3)))
@@ -361,6 +531,47 @@ def do_edit(rec, rng, obj, level, w):
                 a, b = rest[0], rest[-1]
                 if not rc(mf1[a] / mf1[b], mf0[a] / mf0[b], 1e-9):
                     rec.violation("adjustMassFrac/others-lost-proportion/%s" % level, "ratio %s/%s changed" % (a, b), w)
+        elif op == "addMasses":
+            sel = rng.sample(present_clean, min(len(present_clean), rng.randint(1, 3)))
+            m0 = {n: obj.getMass(n) for n in sel}
+            add = {n: m0[n] * rng.uniform(.01, 1) for n in sel}
+            arg = dict(add)
+            rest = [n for n in present_clean if n not in add]
+            if rest and rng.random() < .5:
+                arg[rng.choice(rest)] = 0.0  # a zero entry adds nothing
+            obj.addMasses(arg)
+            after = snapshot_nd(obj)
+            rec.hit("readback")
+            rec.hit("readback.mass-vector")
+            for n in sel:
+                got = obj.getMass(n)
+                if not rc(got, m0[n] + add[n], 1e-9, 1e-30):
+                    rec.violation("readback/addMasses/%s" % level, "addMasses: mass of %s %r + %r reads %r" % (n, m0[n], add[n], got), dict(w, masses=arg))
+                    break
+            others_unchanged(set(add), after)
+        elif op == "setMasses":
+            sel = rng.sample(present_clean, min(len(present_clean), rng.randint(1, 3)))
+            arg = {n: obj.getMass(n) * rng.uniform(.1, 3) for n in sel}
+            obj.setMasses(dict(arg))
+            after = snapshot_nd(obj)
+            rec.hit("readback")
+            rec.hit("readback.mass-vector")
+            for n in sel:
+                got = obj.getMass(n)
+                if not rc(got, arg[n], 1e-9, 1e-30):
+                    rec.violation("readback/setMasses/%s" % level, "setMasses: mass of %s set to %r reads %r" % (n, arg[n], got), dict(w, masses=arg))
+                    break
+            # documented: everything is cleared (to the trace level, so that components remember their nuclides) before the masses are set
+            for n, v in before.items():
+                if n not in arg and not (0 <= after.get(n, 0.0) <= TOLERANCES["trace_abs"]):
+                    rec.violation("setMasses/unlisted-nuclide-not-cleared/%s" % level, "after setMasses N(%s)=%r (was %r)" % (n, after.get(n), v), dict(w, masses=arg))
+                    break
+            if set(after) != set(before):
+                rec.violation("setMasses/forgot-nuclides/%s" % level, "nuclide set changed by setMasses", w)
+            # restore the unlisted nuclides so that later edits are non-trivial
+            back = {n: max(v, 1e-6) for n, v in before.items() if n not in arg}
+            if back:
+                obj.updateNumberDensities(back)
         elif op == "clearNumberDensities":
             from armi.utils import units
 
@@ -388,6 +599,96 @@ def do_edit(rec, rng, obj, level, w):
     return op
 
 
+def absent_edit(rec, rng, obj, level, w, before):
+    """An edit that names a nuclide held by no leaf of obj.  Composite.updateNumberDensities/setNumberDensities document that such a
+    nuclide is spread evenly over all children; Composite.setNumberDensity documents a refusal (and setMass/addMass/addMasses go through
+    it); a component simply takes the new nuclide.  Whatever is accepted must read back at the same level (density and mass) and
+    leave every other nuclide alone."""
+    from armi.reactor.components import Component
+
+    pool = [x for x in ABSENT_POOL if x not in before]
+    if not pool:
+        rec.skip("absent-nuclide edit: every nuclide of the pool is already held")
+        return "absent:none-left"
+    new = rng.choice(pool)
+    iscomp = isinstance(obj, Component)
+    op = rng.choice(["updateNumberDensities", "updateNumberDensities", "setNumberDensities", "setNumberDensity", "setMass", "addMass", "addMasses"] if iscomp else
+                    ["updateNumberDensities", "updateNumberDensities", "updateNumberDensities", "setNumberDensities", "setNumberDensities", "setNumberDensity", "setMass", "addMass", "addMasses"])
+    w = dict(w, op=op + "+absent", level=level, nuclide=new)
+    tr, tu = TOLERANCES["readback_rel"], TOLERANCES["unchanged_rel"]
+    present = [n for n, v in before.items() if v > 0]
+    val = 10 ** rng.uniform(-8, -3)
+    vol = ledger_of(obj)[0]  # volume inside the model, from the leaves and the map's symmetry factors
+    K = const()
+    mass_of = lambda N: N * vol * aw(new) / K
+    listed = {}
+    wiped = False
+    try:
+        if op == "updateNumberDensities":
+            listed = {n: before[n] * rng.uniform(.2, 2) for n in rng.sample(present, min(len(present), rng.randint(0, 2)))}
+            obj.updateNumberDensities(dict(listed, **{new: val}))
+            exp = val
+        elif op == "setNumberDensities":
+            listed = {n: before[n] * rng.uniform(.2, 2) for n in rng.sample(present, min(len(present), rng.randint(1, 4)))}
+            obj.setNumberDensities(dict(listed, **{new: val}))
+            exp = val
+            wiped = True
+        elif op == "setNumberDensity":
+            obj.setNumberDensity(new, val)
+            exp = val
+        else:
+            m = mass_of(val)
+            if op == "setMass":
+                obj.setMass(new, m)
+            elif op == "addMass":
+                obj.addMass(new, m)
+            else:
+                obj.addMasses({new: m})
+            exp = val
+    except ValueError as e:
+        if not iscomp and op not in ("updateNumberDensities", "setNumberDensities") and "does not exist in any children" in str(e):
+            rec.reject("%s of a nuclide no child holds refused at composite level (documented)" % op)
+            after = snapshot_nd(obj)
+            rec.hit("absent-nuclide.refused-state")
+            for n, v in before.items():
+                if not rc(after.get(n, 0.0), v, tu, 1e-300):
+                    rec.violation("refused-edit-changed-state/%s/%s" % (op, level), "%s(%s) was refused but N(%s) %r -> %r" % (op, new, n, v, after.get(n)), w)
+                    break
+            return "absent:" + op + ":refused"
+        rec.crash("edit/%s+absent/%s" % (op, level), e, w)
+        return "absent:" + op
+    except Exception as e:
+        rec.crash("edit/%s+absent/%s" % (op, level), e, w)
+        return "absent:" + op
+    try:
+        after = snapshot_nd(obj)
+        rec.hit("readback")
+        rec.hit("absent-nuclide.%s" % ("component" if iscomp else "composite"))
+        got = obj.getNumberDensity(new)
+        if not rc(got, exp, tr, 1e-300) or not rc(after.get(new, 0.0), exp, tr, 1e-300):
+            rec.violation("readback/%s/absent-nuclide/%s" % (op, level), "%s of %s (held by no leaf) to N=%r reads %r" % (op, new, exp, got), w)
+        gotm = obj.getMass(new)
+        if not rc(gotm, mass_of(exp), 1e-9, 1e-30):
+            rec.violation("readback-mass/%s/absent-nuclide/%s" % (op, level), "%s of %s (held by no leaf): mass reads %r, N x V x A / const = %r" % (op, new, gotm, mass_of(exp)), w)
+        for n, v in listed.items():
+            if not rc(after.get(n, 0.0), v, tr, 1e-300):
+                rec.violation("readback/%s/%s" % (op, level), "%s together with an absent nuclide: N(%s)=%r reads %r" % (op, n, v, after.get(n)), w)
+                break
+        rec.hit("others-unchanged")
+        for n, v in before.items():
+            if n in listed:
+                continue
+            e_ = 0.0 if wiped else v
+            if not rc(after.get(n, 0.0), e_, tu, 1e-300):
+                rec.violation("edit-moved-other-nuclide/%s/%s" % (op, level), "%s(%s, absent) changed N(%s) %r -> %r, expected %r" % (op, new, n, v, after.get(n), e_), w)
+                break
+        if wiped:  # keep later edits non-trivial
+            obj.updateNumberDensities({n: max(v, 1e-6) for n, v in before.items() if n not in listed})
+    except Exception as e:
+        rec.crash("readback/%s+absent/%s" % (op, level), e, w)
+    return "absent:" + op
+
+
 def geometry_edit(rec, rng, block, w):
     from armi.materials import material as matmod
 
@@ -410,6 +711,69 @@ def geometry_edit(rec, rng, block, w):
 
 def layout_sig(bspec):
     return [(c["shape"], c["material"], c.get("mult") if not isinstance(c.get("mult"), str) else "link") for c in bspec["components"]]
+
+
+# ----------------------------------------------------------------------------- cartesian cores (generator's own spec)
+def cart_block_spec(rng, P, kind):
+    """A square pin-type block of pitch P: n x n pins (fuel+bond+clad | absorber+gap+clad | solid pins), coolant (left-over shape),
+    a square duct and the inter-assembly coolant out to the pitch (a fluid at its input temperature: the outer edge is exactly P)."""
+    from vlib import gen
+
+    u = rng.uniform
+    n = rng.choice([1, 4, 9, 16])
+    duct_o = P - u(.2, .6)
+    duct_i = duct_o - 2 * P * u(.015, .03)
+    cell = duct_i / math.sqrt(n)
+    clad_od = cell * u(.5, .8)
+    clad_id = clad_od * u(.8, .92)
+    Tc, Tf, Ts = u(350, 500), u(500, 800), u(350, 500)
+    smat = rng.choice(gen.STRUCT)
+    cool = rng.choice(["Sodium", "Sodium", "Lead"])
+    comps = []
+    if kind == "fuel":
+        comps.append({"name": "fuel", "shape": "Circle", "material": rng.choice(gen.FUELS), "Tinput": 25.0, "Thot": Tf, "id": 0.0, "od": clad_id * u(.75, .95), "mult": n})
+        comps.append({"name": "bond", "shape": "Circle", "material": cool, "Tinput": Tc, "Thot": Tc, "id": "fuel.od", "od": "clad.id", "mult": "fuel.mult"})
+        comps.append({"name": "clad", "shape": "Circle", "material": smat, "Tinput": 25.0, "Thot": Ts, "id": clad_id, "od": clad_od, "mult": "fuel.mult"})
+    elif kind == "control":
+        comps.append({"name": "control", "shape": "Circle", "material": "B4C", "Tinput": 25.0, "Thot": Ts, "id": 0.0, "od": clad_id * .9, "mult": n})
+        comps.append({"name": "gap", "shape": "Circle", "material": "Void", "Tinput": Tc, "Thot": Tc, "id": "control.od", "od": "clad.id", "mult": "control.mult"})
+        comps.append({"name": "clad", "shape": "Circle", "material": smat, "Tinput": 25.0, "Thot": Ts, "id": clad_id, "od": clad_od, "mult": "control.mult"})
+    else:
+        comps.append({"name": "shield", "shape": "Circle", "material": smat, "Tinput": 25.0, "Thot": Ts, "id": 0.0, "od": clad_od, "mult": n})
+    comps.append({"name": "coolant", "shape": "DerivedShape", "material": cool, "Tinput": Tc, "Thot": Tc})
+    comps.append({"name": "duct", "shape": "Rectangle", "material": smat, "Tinput": 25.0, "Thot": Ts, "lengthInner": duct_i, "lengthOuter": duct_o,
+                  "widthInner": duct_i, "widthOuter": duct_o, "mult": 1})
+    comps.append({"name": "intercoolant", "shape": "Rectangle", "material": cool, "Tinput": Tc, "Thot": Tc, "lengthInner": "duct.lengthOuter", "lengthOuter": P,
+                  "widthInner": "duct.widthOuter", "widthOuter": P, "mult": 1})
+    return {"components": comps, "pitch": P, "npins": n, "kind": kind}
+
+
+def cart_core_spec(rng, rings, sym, ndesigns, nblocks, holes=.15):
+    """A small cartesian core (square assemblies, cell (0,0) centred on the origin): a quarter map through the centre assembly
+    (cells i, j >= 0) or a full map (|i|, |j| < rings), with random holes."""
+    P = rng.uniform(8, 18)
+    spec = {"blocks": {}, "assemblies": {}, "grids": {}}
+    heights = [round(rng.uniform(8, 40), 3) for _ in range(nblocks)]
+    names = ["A%d" % d for d in range(ndesigns)]
+    for d in range(ndesigns):
+        bnames = []
+        for k in range(nblocks):
+            kind = rng.choice(["fuel", "fuel", "shield", "control"])
+            bn = "b%d_%d_%s" % (d, k, kind)
+            spec["blocks"][bn] = cart_block_spec(rng, P, kind)
+            bnames.append(bn)
+        spec["assemblies"]["design%d" % d] = {"specifier": names[d], "blocks": bnames, "height": heights, "axial mesh points": [1] * nblocks,
+                                              "xs types": [rng.choice("ABCD") for _ in range(nblocks)]}
+    lo = 0 if sym.startswith("quarter") else -(rings - 1)
+    contents = {}
+    for i in range(lo, rings):
+        for j in range(lo, rings):
+            if (i, j) != (0, 0) and (i, j) != (1, 0) and rng.random() < holes:
+                continue
+            contents[(i, j)] = rng.choice(names)
+    spec["grids"]["core"] = {"geom": "cartesian", "symmetry": sym, "lattice pitch": (P, P), "contents": contents}
+    spec["pitch"] = P
+    return spec
 
 
 # ----------------------------------------------------------------------------- shards
@@ -446,6 +810,8 @@ def do_blocks(spec, rec, rng0):
                 op = "b:" + do_edit(rec, rng, b, "block", dict(w, history=hist))
             hist.append(op)
             check_ledger(rec, b, "block", dict(w, history=hist), rng=rng)
+            cc = c if op.startswith("c:") else rng.choice(list(b))
+            check_ledger(rec, cc, "component", dict(w, history=hist, component=cc.name), rng=rng if e % 3 == 0 else None)
             rec.case(["block", op, sig], nontrivial=len({c["material"] for c in bs["components"]}) >= 2, sample={"block": bs["components"], "history": hist} if i == 0 and e == 5 else None)
 
 
@@ -483,24 +849,98 @@ def do_assemblies(spec, rec, rng0):
 def do_cores(spec, rec, rng0):
     from vlib import gen
 
+    cart = spec.get("geom") == "cartesian"
+    tag = "cartesian-" if cart else ""
     for i in range(spec["n"]):
         rng = random.Random("%s:%d" % (spec["rng"], i))
-        sym = rng.choice(["third periodic", "third periodic", "full"])
-        if i == 0:
-            sym = "third periodic"  # every shard has at least one core with symmetry-cut blocks (floor edit.block-symmetry-factor-3)
-        cspec = gen.core_spec(rng, rings=rng.randint(2, 4), symmetry=sym, ndesigns=rng.randint(1, 3), nblocks=rng.randint(2, 3))
-        w = {"symmetry": sym, "map": {"%d,%d" % k: v for k, v in cspec["grids"]["core"]["contents"].items()}, "case": i}
+        if cart:
+            sym = rng.choice(["quarter reflective through center assembly", "quarter reflective through center assembly", "full"])
+            if i == 0:
+                sym = "quarter reflective through center assembly"  # floors edit.cartesian-block-symmetry-factor-4 / -2
+            elif i == 1:
+                sym = "full"  # every shard also has a full core centred on an assembly (no symmetry lines: every factor is 1)
+            cutkind = "cartesian-quarter-through-centre" if sym.startswith("quarter") else "full"
+            rings = rng.randint(2, 4) if cutkind != "full" else rng.randint(2, 3)  # a full map has (2 rings - 1)^2 cells
+            cspec = cart_core_spec(rng, rings, sym, ndesigns=rng.randint(1, 3), nblocks=rng.randint(2, 3))
+            if cutkind == "full":
+                # keep the extent odd x odd whatever the holes: the ends of row 0 and column 0 are always filled
+                cc_ = cspec["grids"]["core"]["contents"]
+                for c0 in [(rings - 1, 0), (1 - rings, 0), (0, rings - 1), (0, 1 - rings)]:
+                    cc_.setdefault(c0, sorted(set(cc_.values()))[0])
+            area = cspec["pitch"] ** 2
+        else:
+            sym = rng.choice(["third periodic", "third periodic", "full"])
+            rings = rng.randint(2, 4)
+            if i == 0:
+                # every shard has at least one third core with symmetry-cut blocks at the centre and on the edges
+                # (floors edit.block-symmetry-factor-3 and edit.block-symmetry-factor-2)
+                sym = "third periodic"
+                rings = max(rings, 3)
+            cutkind = "hex-third-periodic" if sym.startswith("third") else "full"
+            cspec = gen.core_spec(rng, rings=rings, symmetry=sym, ndesigns=rng.randint(1, 3), nblocks=rng.randint(2, 3))
+            area = hexarea(cspec["pitch"])
+        third = cutkind == "hex-third-periodic"
+        contents = cspec["grids"]["core"]["contents"]
+        edges = third and rings >= 3 and (i == 0 or rng.random() < .6)
+        if edges:
+            # the generator leaves random holes: make sure the cells of the 0-degree line (whose images the changer adds) are filled
+            for c0 in [c_ for c_ in gen.hex_cells(rings) if on_zero_line(*c_)]:
+                if c0 not in contents and (c0 == (2, -1) or rng.random() < .5):
+                    contents[c0] = rng.choice(sorted(set(contents.values())))
+        e_add = rng.randint(1, 3) if edges else -1
+        e_rem = (spec["edits"] - 1 if i == 0 else rng.randint(e_add + 3, spec["edits"] + 3)) if edges else -1
+        w = {"geom": "cartesian" if cart else "hex", "symmetry": sym, "map": {"%d,%d" % k: v for k, v in contents.items()}, "case": i, "pitch": cspec["pitch"]}
         try:
             r, cs, bp, text = gen.build_reactor(cspec)
         except Exception as e:
             rec.crash("build-reactor", e, w)
             continue
         core = r.core
-        facs = sorted({b.getSymmetryFactor() for a in core for b in a})
-        rec.add("symmetry_factors_seen:" + ",".join(str(f) for f in facs))
+        heights = list(next(iter(cspec["assemblies"].values()))["height"])  # all designs share the axial mesh
+        cells = set(contents)
+        amap = register_core(rec, core, cells, cutkind, w)
+        facs = sorted({f for _a, f in amap.values()})
+        rec.add("symmetry_factors_expected:%s" % tag + ",".join(str(f) for f in facs))
+        if cart and cutkind == "full":
+            # triage of one precise mechanism: a FULL cartesian map with an odd x odd extent is flagged "through center" by the grid
+            # blueprint, and CartesianBlock.getSymmetryFactor then cuts row 0 / column 0 / the centre as if it were a quarter core.
+            # Every volume and mass of such a core is off, so it is reported once under its own key and not judged further.
+            rec.hit("symmetry-factor.cartesian-full-core")
+            wrong = [[list(cell), b.getSymmetryFactor()] for cell, (a, _f) in sorted(amap.items()) for b in list(a)[:1] if b.getSymmetryFactor() != 1.0]
+            if wrong:
+                rec.violation("symmetry-factor/cartesian-full-core-cut-through-centre", "blocks of a full cartesian core (no symmetry lines) report symmetry factors %r; "
+                              "core volume %r, cell area x height x number of cells = %r" % (wrong[:5], core.getVolume(), area * sum(heights) * len(amap)), dict(w, cut=wrong[:9]))
+                rec.skip("full cartesian core whose blocks report the symmetry factors of a quarter core: accounting not judged further")
+                continue
+        check_core_geometry(rec, core, amap, area, heights, w, tag)
         check_ledger(rec, core, "core", w, rng=rng)
         hist = []
+        changer = None
         for e in range(spec["edits"]):
+            if e == e_add or e == e_rem:
+                from armi.reactor.converters.geometryConverters import EdgeAssemblyChanger
+                from vlib.env import quiet
+
+                try:
+                    with quiet():
+                        if e == e_add:
+                            changer = EdgeAssemblyChanger()
+                            changer.addEdgeAssemblies(core)
+                            cells |= {rot120(*c_) for c_ in cells if on_zero_line(*c_)}
+                            hist.append("addEdgeAssemblies")
+                        else:
+                            changer.removeEdgeAssemblies(core)
+                            cells = {c_ for c_ in cells if not on_zero_line(*rot240(*c_))}
+                            hist.append("removeEdgeAssemblies")
+                except Exception as ex:
+                    rec.crash("edge-assemblies/%s" % ("add" if e == e_add else "remove"), ex, dict(w, history=hist))
+                    break
+                rec.hit("edge-assemblies.changed")
+                amap = register_core(rec, core, cells, cutkind, dict(w, history=hist))
+                facs = sorted({f for _a, f in amap.values()})
+                rec.add("symmetry_factors_expected:" + ",".join(str(f) for f in facs))
+                check_core_geometry(rec, core, amap, area, heights, dict(w, history=hist), tag)
+                check_ledger(rec, core, "core", dict(w, history=hist), rng=rng)
             r_ = rng.random()
             if r_ < .4:
                 a = rng.choice(list(core))
@@ -512,17 +952,27 @@ def do_cores(spec, rec, rng0):
                 op = "core:" + do_edit(rec, rng, core, "core", dict(w, history=hist))
             hist.append(op)
             check_ledger(rec, core, "core", dict(w, history=hist), rng=rng)
-            centre = core.childrenByLocator.get(core.spatialGrid[0, 0, 0])
-            if centre is not None and len(centre):
-                # blocks cut by symmetry lines (factor 3 at the centre of a third core): edit them directly every step
-                cb = rng.choice(list(centre))
-                fac = cb.getSymmetryFactor()
-                rec.hit("edit.block-symmetry-factor-%g" % fac)
-                hist.append("centre-b(sym %g):" % fac + do_edit(rec, rng, cb, "block", dict(w, history=hist, symmetryFactor=fac)))
-                hist.append("centre-c:" + do_edit(rec, rng, rng.choice(list(cb)), "component", dict(w, history=hist, symmetryFactor=fac)))
-            if centre is not None:
-                check_ledger(rec, centre, "assembly", dict(w, history=hist, which="centre"), rng=rng)
-                check_ledger(rec, centre[0], "block", dict(w, history=hist, which="centre"), rng=rng)
+            # blocks cut by symmetry lines (hex third core: factor 3 at the centre, 2 for both members of an edge pair; cartesian
+            # quarter core: 4 at the centre, 2 along row 0 and column 0): edit them and one of their components directly every
+            # step, then run the ledger on component, block and assembly
+            cut = [amap[(0, 0)]] if (0, 0) in amap else []
+            pairs = sorted(c_ for c_, (_a, f_) in amap.items() if f_ == 2.0)
+            if pairs:
+                cut.append(amap[rng.choice(pairs)])
+            for ca, fac in cut:
+                if not len(ca):
+                    continue
+                which = "centre" if ca is amap[(0, 0)][0] else "edge"
+                cb = rng.choice(list(ca))
+                cc = rng.choice(list(cb))
+                rec.hit("edit.%sblock-symmetry-factor-%g" % (tag, fac))
+                hist.append("%s-b(sym %g):" % (which, fac) + do_edit(rec, rng, cb, "block", dict(w, history=hist, symmetryFactor=fac)))
+                hist.append("%s-c:" % which + do_edit(rec, rng, cc, "component", dict(w, history=hist, symmetryFactor=fac, component=cc.name)))
+                rec.hit("ledger.component-in-%sblock-of-factor-%g" % (tag, fac))
+                check_ledger(rec, cc, "component", dict(w, history=hist, which=which, symmetryFactor=fac, component=cc.name), rng=rng)
+                check_ledger(rec, ca, "assembly", dict(w, history=hist, which=which), rng=rng)
+                check_ledger(rec, cb, "block", dict(w, history=hist, which=which), rng=rng)
+            check_core_geometry(rec, core, amap, area, heights, dict(w, history=hist), tag)
             rec.case(["core", sym, op, facs], sample=dict(w, history=hist) if i == 0 and e == 2 else None)
 
 
